@@ -4,7 +4,7 @@ CONSTANT MaxLines
 \* includes structures with adjacent / repeated alpha variables (multi-words): every A gets its own C
 Labels == { << <<"M", 0>> >>, <<<<"A", 1>>>>, <<<<"D", 1>>>>, <<<<"A", 1>>, <<"D", 1>>>>, <<<<"D", 1>>, <<"A", 2>>>>,
             <<<<"A", 1>>, <<"A", 2>>>>, <<<<"A", 1>>, <<"D", 1>>, <<"A", 1>>>>, <<<<"A", 2>>, <<"A", 1>>, <<"A", 1>>>>,
-            <<<<"A", 10>>>>, <<<<"A", 12>>, <<"D", 1>>>> }        \* two-digit lengths: the label is read to its end
+            <<<<"A", 10>>>>, <<<<"A", 12>>, <<"D", 1>>>>, <<<<"A", 101>>>> }    \* multi-digit lengths: the label is read to its end
 Ws == {1, 2, 4}
 Sum(f) == LET F[k \in 0..Len(f)] == IF k = 0 THEN 0 ELSE F[k - 1] + f[k].w IN F[Len(f)]
 \* well-formed: weights sum to at most D, at most one Markov line (the trainer writes one), sorted by weight
